@@ -830,3 +830,37 @@ func ruleWalMonotone(c *Ctx, r *Reporter) {
 		}
 	}
 }
+
+// preEffectSentinel: in every Append* entry point, each direct return of the sentinel g happens before any effect
+// (no store to the counter and no record write can reach it). Such an error is safe to retry on.
+func preEffectSentinel(c *Ctx, a *walAnchors, g *ssa.Global) bool {
+	if g == nil {
+		return false
+	}
+	for _, fn := range a.appendFns {
+		for _, ret := range Returns(fn) {
+			if !returnsGlobalErr(ret, g) {
+				continue
+			}
+			bad := false
+			AllInstrs(fn, false, func(_ *ssa.Function, ins ssa.Instruction) {
+				eff := false
+				if st, isSt := ins.(*ssa.Store); isSt && fieldVarOf(st.Addr) == a.nextSeq {
+					eff = true
+				}
+				if c.CallMay(ins, a.writeSet()) {
+					eff = true
+				}
+				if eff {
+					if f, _ := Reach(fn, ins, func(i ssa.Instruction) bool { return i == ssa.Instruction(ret) }, nil); f != nil {
+						bad = true
+					}
+				}
+			})
+			if bad {
+				return false
+			}
+		}
+	}
+	return true
+}
